@@ -13,7 +13,7 @@ import (
 
 func init() {
 	register(&Rule{ID: "ARG-conversion", Props: []string{"C05", "C06", "C08", "C09", "C12", "C13"}, Min: 100,
-		Doc: "S (ES5 §15, the 'Let n be ToInteger(arg)' steps): for every built-in function and argument position listed in the table the set of abstract conversions applied to that argument - found by following the argument from call.Argument(k) / ArgumentList[k] through locals, phis and helper functions to the conversion functions (toIntegerFloat = ToInteger, toInt32, toUint32, toUint16, .float64() = ToNumber, .string() = ToString, .bool() = ToBoolean) - equals the conversion the clause prescribes. A different conversion of the same Go type (ToInteger for ToInt32, ToNumber for ToInteger) agrees on everyday values and differs for NaN, infinities, fractions and values beyond 2^31/2^32",
+		Doc: "S (ES5 §15, the 'Let n be ToInteger(arg)' steps): for every built-in function and argument position listed in the table the set of abstract conversions applied to that argument - found by following the argument from call.Argument(k) / ArgumentList[k] through locals, phis and helper functions to the conversion functions (toIntegerFloat = ToInteger, toInt32, toUint32, toUint16, .float64() = ToNumber, .string() = ToString, .bool() = ToBoolean) - equals the conversion the clause prescribes; `undefined?` in a cell means the argument is also tested for undefined (it has a default, or its absence and an explicit undefined are distinguished as the clause says) - a cell without it must not test, which is what keeps presence-based arguments (splice's deleteCount, the Date fields) from treating an explicit undefined as absent. A different conversion of the same Go type (ToInteger for ToInt32, ToNumber for ToInteger) agrees on everyday values and differs for NaN, infinities, fractions and values beyond 2^31/2^32",
 		Run: ruleArgConversion})
 }
 
@@ -64,6 +64,7 @@ type convTrack struct {
 	n     int // argument index, -1: every element of the list (range loop)
 	convs map[string]bool
 	seen  map[ssa.Value]bool
+	idxN  map[ssa.Value]bool // index parameters of accessor helpers that stand for n at the call being followed
 }
 
 func (t *convTrack) visit(v ssa.Value, role, depth int) {
@@ -115,7 +116,7 @@ func (t *convTrack) visit(v ssa.Value, role, depth int) {
 			}
 		case *ssa.IndexAddr:
 			if role == roleList && x.X == v {
-				if k, ok := constInt(x.Index); ok && int(k) == t.n {
+				if k, ok := constInt(x.Index); (ok && int(k) == t.n) || t.idxN[x.Index] {
 					for _, r2 := range *x.Referrers() {
 						if ld, ok := r2.(*ssa.UnOp); ok && ld.Op == token.MUL {
 							t.visit(ld, roleArg, depth)
@@ -170,17 +171,36 @@ func (t *convTrack) visit(v ssa.Value, role, depth int) {
 						if val := x.Value(); val != nil {
 							t.visit(val, roleArg, depth)
 						}
+						if callee.Blocks != nil && len(callee.Params) == 2 {
+							if t.idxN == nil {
+								t.idxN = map[ssa.Value]bool{}
+							}
+							t.idxN[callee.Params[1]] = true
+							t.visit(callee.Params[0], roleCall, depth+1)
+						}
 					}
 				case role == roleList && i == 0 && (callee.Name() == "valueOfArrayIndex" || callee.Name() == "getValueOfArrayIndex") && len(cc.Args) == 2:
-					if k, ok := constInt(cc.Args[1]); ok && int(k) == t.n {
+					if k, ok := constInt(cc.Args[1]); (ok && int(k) == t.n) || t.idxN[cc.Args[1]] {
 						if val := x.Value(); val != nil {
 							t.visit(val, roleArg, depth)
+						}
+						// what the accessor itself does with the element (an emptiness or undefined test)
+						if callee.Blocks != nil && len(callee.Params) == 2 {
+							if t.idxN == nil {
+								t.idxN = map[ssa.Value]bool{}
+							}
+							t.idxN[callee.Params[1]] = true
+							t.visit(callee.Params[0], roleList, depth+1)
 						}
 					}
 				default:
 					if role == roleArg {
 						if cl := convClass(callee, i); cl != "" {
 							t.convs[cl] = true
+							continue
+						}
+						if i == 0 && callee.Signature.Recv() != nil && (callee.Name() == "IsUndefined" || callee.Name() == "IsDefined") {
+							t.convs["undefined?"] = true // the argument is tested for undefined (default / early exit)
 							continue
 						}
 					}
@@ -226,24 +246,24 @@ var argConvSpec = map[string][2]string{
 	"new String#0":                            {"ToString", "§15.5.2.1"},
 	"Boolean#0":                               {"ToBoolean", "§15.6.1.1, §15.6.2.1"},
 	"new Boolean#0":                           {"ToBoolean", "§15.6.1.1, §15.6.2.1"},
-	"RegExp#0":                                {"ToString", "§15.10.4.1"},
-	"RegExp#1":                                {"ToString", "§15.10.4.1"},
-	"new RegExp#0":                            {"ToString", "§15.10.4.1"},
-	"new RegExp#1":                            {"ToString", "§15.10.4.1"},
-	"Error#0":                                 {"ToString", "§15.11.1.1, §15.11.2.1"},
-	"new Error#0":                             {"ToString", "§15.11.1.1, §15.11.2.1"},
-	"EvalError#0":                             {"ToString", "§15.11.7.2, §15.11.7.4"},
-	"new EvalError#0":                         {"ToString", "§15.11.7.2, §15.11.7.4"},
-	"RangeError#0":                            {"ToString", "§15.11.7.2, §15.11.7.4"},
-	"new RangeError#0":                        {"ToString", "§15.11.7.2, §15.11.7.4"},
-	"ReferenceError#0":                        {"ToString", "§15.11.7.2, §15.11.7.4"},
-	"new ReferenceError#0":                    {"ToString", "§15.11.7.2, §15.11.7.4"},
-	"SyntaxError#0":                           {"ToString", "§15.11.7.2, §15.11.7.4"},
-	"new SyntaxError#0":                       {"ToString", "§15.11.7.2, §15.11.7.4"},
-	"TypeError#0":                             {"ToString", "§15.11.7.2, §15.11.7.4"},
-	"new TypeError#0":                         {"ToString", "§15.11.7.2, §15.11.7.4"},
-	"URIError#0":                              {"ToString", "§15.11.7.2, §15.11.7.4"},
-	"new URIError#0":                          {"ToString", "§15.11.7.2, §15.11.7.4"},
+	"RegExp#0":                                {"ToString+undefined?", "§15.10.4.1"},
+	"RegExp#1":                                {"ToString+undefined?", "§15.10.4.1"},
+	"new RegExp#0":                            {"ToString+undefined?", "§15.10.4.1"},
+	"new RegExp#1":                            {"ToString+undefined?", "§15.10.4.1"},
+	"Error#0":                                 {"ToString+undefined?", "§15.11.1.1, §15.11.2.1"},
+	"new Error#0":                             {"ToString+undefined?", "§15.11.1.1, §15.11.2.1"},
+	"EvalError#0":                             {"ToString+undefined?", "§15.11.7.2, §15.11.7.4"},
+	"new EvalError#0":                         {"ToString+undefined?", "§15.11.7.2, §15.11.7.4"},
+	"RangeError#0":                            {"ToString+undefined?", "§15.11.7.2, §15.11.7.4"},
+	"new RangeError#0":                        {"ToString+undefined?", "§15.11.7.2, §15.11.7.4"},
+	"ReferenceError#0":                        {"ToString+undefined?", "§15.11.7.2, §15.11.7.4"},
+	"new ReferenceError#0":                    {"ToString+undefined?", "§15.11.7.2, §15.11.7.4"},
+	"SyntaxError#0":                           {"ToString+undefined?", "§15.11.7.2, §15.11.7.4"},
+	"new SyntaxError#0":                       {"ToString+undefined?", "§15.11.7.2, §15.11.7.4"},
+	"TypeError#0":                             {"ToString+undefined?", "§15.11.7.2, §15.11.7.4"},
+	"new TypeError#0":                         {"ToString+undefined?", "§15.11.7.2, §15.11.7.4"},
+	"URIError#0":                              {"ToString+undefined?", "§15.11.7.2, §15.11.7.4"},
+	"new URIError#0":                          {"ToString+undefined?", "§15.11.7.2, §15.11.7.4"},
 	"Function#*":                              {"ToString", "§15.3.2.1"},
 	"new Function#*":                          {"ToString", "§15.3.2.1"},
 	"new Date#*":                              {"ToNumber", "§15.9.3.1 steps 1-7"},
@@ -272,27 +292,27 @@ var argConvSpec = map[string][2]string{
 	"String.prototype.indexOf#0":              {"ToString", "§15.5.4.7 step 3"},
 	"String.prototype.indexOf#1":              {"ToInteger", "§15.5.4.7 step 4"},
 	"String.prototype.lastIndexOf#0":          {"ToString", "§15.5.4.8 step 3"},
-	"String.prototype.lastIndexOf#1":          {"ToInteger(sat)", "§15.5.4.8 steps 4-5 (ToNumber; NaN -> +Infinity, else ToInteger: the classified form keeps the NaN flag)"},
+	"String.prototype.lastIndexOf#1":          {"ToInteger(sat)+undefined?", "§15.5.4.8 steps 4-5 (ToNumber; NaN -> +Infinity, else ToInteger: the classified form keeps the NaN flag)"},
 	"String.prototype.localeCompare#0":        {"ToString", "§15.5.4.9"},
-	"String.prototype.match#0":                {"ToString", "§15.5.4.10, §15.5.4.12 (new RegExp(arg) when it is not a RegExp)"},
-	"String.prototype.search#0":               {"ToString", "§15.5.4.10, §15.5.4.12 (new RegExp(arg) when it is not a RegExp)"},
+	"String.prototype.match#0":                {"ToString+undefined?", "§15.5.4.10, §15.5.4.12 (new RegExp(arg) when it is not a RegExp)"},
+	"String.prototype.search#0":               {"ToString+undefined?", "§15.5.4.10, §15.5.4.12 (new RegExp(arg) when it is not a RegExp)"},
 	"String.prototype.replace#0":              {"ToString", "§15.5.4.11"},
 	"String.prototype.replace#1":              {"ToString", "§15.5.4.11"},
 	"String.prototype.slice#0":                {"ToInteger(sat)", "§15.5.4.13 steps 4-5"},
-	"String.prototype.slice#1":                {"ToInteger(sat)", "§15.5.4.13 steps 4-5"},
-	"String.prototype.split#0":                {"ToString", "§15.5.4.14 step 8"},
-	"String.prototype.split#1":                {"ToUint32", "§15.5.4.14 step 5"},
+	"String.prototype.slice#1":                {"ToInteger(sat)+undefined?", "§15.5.4.13 steps 4-5"},
+	"String.prototype.split#0":                {"ToString+undefined?", "§15.5.4.14 step 8"},
+	"String.prototype.split#1":                {"ToUint32+undefined?", "§15.5.4.14 step 5"},
 	"String.prototype.substring#0":            {"ToInteger(sat)", "§15.5.4.15 steps 4-5"},
-	"String.prototype.substring#1":            {"ToInteger(sat)", "§15.5.4.15 steps 4-5"},
+	"String.prototype.substring#1":            {"ToInteger(sat)+undefined?", "§15.5.4.15 steps 4-5"},
 	"String.prototype.substr#0":               {"ToInteger(sat)", "§B.2.3 steps 2-3"},
-	"String.prototype.substr#1":               {"ToInteger(sat)", "§B.2.3 steps 2-3"},
-	"Number.prototype.toString#0":             {"ToInteger", "§15.7.4.2"},
+	"String.prototype.substr#1":               {"ToInteger(sat)+undefined?", "§B.2.3 steps 2-3"},
+	"Number.prototype.toString#0":             {"ToInteger+undefined?", "§15.7.4.2"},
 	"Number.prototype.toFixed#0":              {"ToInteger", "§15.7.4.5 step 1"},
-	"Number.prototype.toExponential#0":        {"ToInteger", "§15.7.4.6 step 2"},
-	"Number.prototype.toPrecision#0":          {"ToInteger", "§15.7.4.7 step 3"},
-	"Array.prototype.join#0":                  {"ToString", "§15.4.4.5 step 4"},
+	"Number.prototype.toExponential#0":        {"ToInteger+undefined?", "§15.7.4.6 step 2"},
+	"Number.prototype.toPrecision#0":          {"ToInteger+undefined?", "§15.7.4.7 step 3"},
+	"Array.prototype.join#0":                  {"ToString+undefined?", "§15.4.4.5 step 4"},
 	"Array.prototype.slice#0":                 {"ToInteger(sat)", "§15.4.4.10 steps 5, 7"},
-	"Array.prototype.slice#1":                 {"ToInteger(sat)", "§15.4.4.10 steps 5, 7"},
+	"Array.prototype.slice#1":                 {"ToInteger(sat)+undefined?", "§15.4.4.10 steps 5, 7"},
 	"Array.prototype.splice#0":                {"ToInteger(sat)", "§15.4.4.12 steps 5, 7"},
 	"Array.prototype.splice#1":                {"ToInteger(sat)", "§15.4.4.12 steps 5, 7"},
 	"Array.prototype.indexOf#1":               {"ToInteger(sat)", "§15.4.4.14 step 5, §15.4.4.15 step 5"},
